@@ -536,3 +536,108 @@ Proof.
   split; [exact HP|]. split; [exact c03l_demo_noitem|]. split; [exact Hnu|].
   rewrite <- He. exact (noitem_terminates _ c03l_demo HP c03l_demo_noitem Hnu).
 Qed.
+
+(* ================================================================== (4) counting flushes; termination reduced to (ii)+(iii) *)
+(* number of computed futures among the ids [0], ..., [N-1] *)
+Definition cN (N : nat) (s : st) : nat := length (filter (fun k => computed [Z.of_nat k] s) (seq 0 N)).
+
+Lemma filter_len_le {A} (f g : A -> bool) l :
+  (forall x, In x l -> f x = true -> g x = true) -> (length (filter f l) <= length (filter g l))%nat.
+Proof.
+  induction l as [|a l IH]; intros H; cbn; [lia|].
+  assert (IH' : (length (filter f l) <= length (filter g l))%nat) by (apply IH; intros x Hx; apply H; right; exact Hx).
+  destruct (f a) eqn:Fa; [rewrite (H a (or_introl eq_refl) Fa); cbn; lia|]. destruct (g a); cbn; lia.
+Qed.
+
+Lemma filter_len_lt {A} (f g : A -> bool) l a :
+  (forall x, In x l -> f x = true -> g x = true) -> In a l -> f a = false -> g a = true ->
+  (length (filter f l) < length (filter g l))%nat.
+Proof.
+  induction l as [|b l IH]; intros H Hin Fa Ga; [destruct Hin|]. cbn.
+  assert (Hl : forall x, In x l -> f x = true -> g x = true) by (intros x Hx; apply H; right; exact Hx).
+  destruct Hin as [->|Hin].
+  - rewrite Fa, Ga. cbn. pose proof (filter_len_le f g l Hl). lia.
+  - specialize (IH Hl Hin Fa Ga). destruct (f b) eqn:Fb; [rewrite (H b (or_introl eq_refl) Fb); cbn; lia|]. destruct (g b); cbn; lia.
+Qed.
+
+Lemma filter_len_all {A} (f : A -> bool) l : (length (filter f l) <= length l)%nat.
+Proof. induction l as [|a l IH]; cbn; [lia|]. destruct (f a); cbn; lia. Qed.
+
+Lemma cN_le N s : (cN N s <= N)%nat.
+Proof. unfold cN. pose proof (filter_len_all (fun k => computed [Z.of_nat k] s) (seq 0 N)) as H. rewrite seq_length in H. exact H. Qed.
+
+Lemma cN_mono N s s' : (forall x, computed x s = true -> computed x s' = true) -> (cN N s <= cN N s')%nat.
+Proof. intros H. unfold cN. apply filter_len_le. intros x _. apply H. Qed.
+
+Lemma cN_strict N s s' k : (forall x, computed x s = true -> computed x s' = true) -> (k < N)%nat ->
+  computed [Z.of_nat k] s = false -> computed [Z.of_nat k] s' = true -> (cN N s < cN N s')%nat.
+Proof.
+  intros H Hk A B. unfold cN. apply (filter_len_lt _ _ _ k); [intros x _; apply H| |exact A|exact B].
+  apply in_seq. lia.
+Qed.
+
+Section Count.
+  Variable P : params.
+  Hypothesis HP : pointwise P.
+  Variable p0 : prog.
+  Hypothesis Ht0 : tree p0.
+
+  Let h := fst (create [] (FTask p0) (st0 P)).
+  Let s1 := snd (create [] (FTask p0) (st0 P)).
+  Let c0 := start h s1.
+
+  Hypothesis Hnu : forall n, no_unwind P n c0.
+
+  Lemma comp_mono_S n x : computed x (c_st (run P n c0)) = true -> computed x (c_st (run P (S n) c0)) = true.
+  Proof.
+    intros Hc. replace (S n) with (n + 1)%nat by lia. rewrite run_add.
+    pose proof (MachineC05T.Inv_run P n c0 (Inv_s1 P p0)) as (D & _). fold h s1 c0 in D.
+    rewrite run_S. destruct (is_final (c_mode (run P n c0))); [exact Hc|]. cbn [run].
+    destruct (step_ok P (run P n c0)) as (evs & _ & _ & G). destruct (G D) as (_ & C).
+    specialize (C x). rewrite Hc in C. destruct (computed x (c_st (step P (run P n c0)))); [reflexivity|cbn in C; lia].
+  Qed.
+
+  Lemma comp_mono_add n m x : computed x (c_st (run P n c0)) = true -> computed x (c_st (run P (n + m) c0)) = true.
+  Proof.
+    intros Hc. induction m as [|m IH]; [rewrite Nat.add_0_r; exact Hc|].
+    replace (n + S m)%nat with (S (n + m)) by lia. apply comp_mono_S. exact IH.
+  Qed.
+
+  (* a flush point: a pass has ended and the awaited task is not computed *)
+  Definition fpb (n : nat) : bool :=
+    match c_mode (run P n c0) with MAfterExec => negb (computed h (c_st (run P n c0))) | _ => false end.
+
+  Definition flushes (n : nat) : nat := length (filter fpb (seq 0 n)).
+
+  Lemma fpb_true n : fpb n = true -> c_mode (run P n c0) = MAfterExec /\ computed h (c_st (run P n c0)) = false.
+  Proof. unfold fpb. destruct (c_mode (run P n c0)); try discriminate. intros H. apply negb_true_iff in H. auto. Qed.
+
+  (* the step at a flush point strictly increases the number of computed futures below any bound on the ids *)
+  Lemma flush_counts N n : (top_next (c_st (run P n c0)) <= Z.of_nat N)%Z -> fpb n = true ->
+    (cN N (c_st (run P n c0)) < cN N (c_st (run P (S n) c0)))%nat.
+  Proof.
+    intros HN Hf. destruct (fpb_true n Hf) as (Hm & Hc).
+    destruct (flush_makes_progress P HP p0 Ht0 n (Hnu n) Hm Hc) as (_ & (d & Hd0 & Hd1 & (kind & idx & key & a & Hg)) & Hmono).
+    fold h s1 c0 in Hd0, Hd1, Hg, Hmono.
+    destruct (tree_run_CInv P p0 n HP Ht0 (Hnu n)) as (spec & HC). fold h s1 c0 in HC.
+    unfold CInv in HC. rewrite Hm in HC. destruct HC as (_ & _ & HS & _).
+    destruct (SInv_entry _ _ _ _ _ HS Hg) as ((k & Ek & Hk) & _). subst d.
+    apply (cN_strict N _ _ (Z.to_nat k)); [exact Hmono|lia| |]; rewrite Z2Nat.id by lia; assumption.
+  Qed.
+
+  (* (4-i) relative bound on the number of flushes: as long as the ids stay below N, at most N flushes happen
+     (each flush computes a future that was not computed, and computed futures stay computed) *)
+  Theorem flushes_bounded N n :
+    (forall k, (k <= n)%nat -> (top_next (c_st (run P k c0)) <= Z.of_nat N)%Z) ->
+    (flushes n <= cN N (c_st (run P n c0)))%nat /\ (flushes n <= N)%nat.
+  Proof.
+    intros HN. assert (G : (flushes n <= cN N (c_st (run P n c0)))%nat).
+    { induction n as [|n IH]; [cbn; lia|].
+      assert (IH' : (flushes n <= cN N (c_st (run P n c0)))%nat) by (apply IH; intros k Hk; apply HN; lia).
+      unfold flushes in *. rewrite seq_S, filter_app, app_length. cbn [Nat.add filter].
+      destruct (fpb n) eqn:Hf; cbn [length].
+      - pose proof (flush_counts N n (HN n ltac:(lia)) Hf). lia.
+      - pose proof (cN_mono N _ _ (comp_mono_S n)). lia. }
+    split; [exact G|]. pose proof (cN_le N (c_st (run P n c0))). lia.
+  Qed.
+End Count.
